@@ -144,6 +144,31 @@ def _chunk(seed, lo, hi, extra):
             if left:
                 st.failures.append({"sig": "C11/text-tag-element-keeps-element-children", "element": xt.to_xml(left[0])[:300], **desc})
                 break
+        # third clause: the same inline element followed by different texts (in two documents, or twice in one) gets the
+        # same placeholder - a fresh maker, a text element <T>lead<child/>tail</T> with two different tails
+        if text:
+            cand = [k for d in docs for n in d.iter() if n.kind == "e" and n.tag in text for k in n.kids if k.kind == "e" and k.tag not in text]
+            if cand:
+                k0 = cand[0].copy()
+                k0.tail = None
+                PN = xt.PNode
+
+                def one(tail):
+                    kk = k0.copy()
+                    kk.tail = tail
+                    return PN("e", "zroot", [], None, None, [PN("e", text[0], [], "lead ", None, [kk])]).number(0)
+
+                try:
+                    mk2 = formatting.PlaceholderMaker(text_tags=text, formatting_tags=fmt)
+                    e1, e2 = xt.to_lxml(one(" first tail")), xt.to_lxml(one(None))
+                    mk2.do_tree(e1)
+                    mk2.do_tree(e2)
+                    t1, t2 = (e1[0].text or ""), (e2[0].text or "")
+                    if len(t1) > 5 and len(t2) > 5 and t1[5] != t2[5]:
+                        st.failures.append({"sig": "C11/identical-element-different-placeholder/following-text-differs",
+                                            "element": xt.to_xml(k0)[:200], "first": repr(t1[:12]), "second": repr(t2[:12]), **desc})
+                except Exception as e:  # noqa
+                    st.failures.append({"sig": f"C11/raises/{real.exc_sig(e)}/following-text", **desc})
         nested = any(n.kind == "e" and n.tag in fmt and any(k.kind == "e" for k in n.kids) for d in docs for n in d.iter()) and bool(text)
         if nested:
             st.nontriv((tuple(desc["documents"]), text, fmt))
